@@ -7,7 +7,9 @@
 (* harness/gpr_engine.py.  One trace = one case (tree, spelling):          *)
 (*   trace = [tid, tree, toks, events]                                     *)
 (*   event = [kind, how, tree2, toks2, K, rr, obs]   (one uniform shape)   *)
-(*   obs   = [raises, tt, genes, toks, toks2, eq, eq2, present]            *)
+(*   obs   = [raises, tt, genes, toks, toks2, eq, eq2, present,            *)
+(*            pre, dhow, dtt, dgenes, deq]   (remove: views read before the *)
+(*            removal; derived forms of the rule left behind)              *)
 (*     tt      results of eval(K) for every knock-out set, in mask order   *)
 (*     genes   the reported gene set, as abstract genes ("?id" = unknown)  *)
 (*     toks    tokens of to_string() / reaction.gene_reaction_rule         *)
@@ -83,7 +85,14 @@ FieldsRemove(c, ev) ==
                   \* the text form of the new rule is faithful to what it evaluates to ...
                   \cup If(p.k = "error" \/ TTSeq(p) # o.tt, "rm_text")
                   \* ... and the rule reports exactly the genes occurring in it
-                  \cup If(p.k # "error" /\ SetOf(o.genes) # GenesOf(p), "rm_genes"))
+                  \cup If(p.k # "error" /\ SetOf(o.genes) # GenesOf(p), "rm_genes")
+                  \* the rule left behind by the edit in place is a rule like any other: its symbolic
+                  \* form, copy, text round trip, pickle and the copy inside Model.copy() have its
+                  \* truth table and gene set and compare equal to it (whatever views of the rule
+                  \* object were read before the removal: o.pre)
+                  \cup If(\E i \in 1..Len(o.dtt) : o.dtt[i] # o.tt, "rm_derived_tt")
+                  \cup If(p.k # "error" /\ \E i \in 1..Len(o.dgenes) : SetOf(o.dgenes[i]) # GenesOf(p), "rm_derived_genes")
+                  \cup If(\E i \in 1..Len(o.deq) : o.deq[i] # "T", "rm_derived_eq"))
 
 Fields(c, ev) ==
   CASE ev.kind = "parse" -> FieldsParse(c, ev)
